@@ -76,8 +76,10 @@ JudgeToInteger(ev) ==
             ELSE IF ev.end # i + f.ptr THEN "ti-end"
             ELSE "ok"
 
+\* "crash": the call did not return (signal); always a deviation
 Judge(ev) ==
-    CASE ev.op = "to_chars" -> JudgeToChars(ev)
+    CASE "crash" \in DOMAIN ev -> "crash"
+      [] ev.op = "to_chars" -> JudgeToChars(ev)
       [] ev.op = "from_integer" -> JudgeFromInteger(ev)
       [] ev.op = "to_string" -> IF ~InRange(ev.t, ev.v) THEN "harness-pre"
                                 ELSE IF ev.text = ToText(ev.v, 10) THEN "ok" ELSE "to_string"
@@ -89,7 +91,8 @@ Judge(ev) ==
       [] OTHER -> "harness-op"
 
 Expected(ev) ==
-    CASE ev.op \in {"to_chars", "from_integer", "to_string"} ->
+    CASE "crash" \in DOMAIN ev -> "-"
+      [] ev.op \in {"to_chars", "from_integer", "to_string"} ->
            IF ev.base \in 2..36 THEN ToJson([text |-> ToText(ev.v, IF ev.op = "to_string" THEN 10 ELSE ev.base)]) ELSE "-"
       [] ev.op = "from_chars" -> IF ev.base \in 2..36 THEN ToJson(FromChars(ev.t, ev.text, ev.base)) ELSE "-"
       [] ev.op \in StrToOps \cup StoOps \cup AtoOps -> ToJson(StrTo(ev.ut, ev.text, ev.base))
